@@ -154,8 +154,7 @@ def rule_r3(ctx):
         ctx.r.violation(rid, "param-map", "_param_map is not dict(_params): %s" % (norm(pm[1]) if pm else None), "src/waitress/adjustments.py")
 
 
-def rule_r4(ctx):
-    rid = "C20.R4"
+def rule_r4(ctx, rid="C20.R4"):
     ctx.r.rule(rid, "proxy option cross-checks exist and raise: count without proxy, headers without proxy, unknown kinds, Forwarded together with X-Forwarded-*")
     p = ctx.p
     f = _init(ctx)
@@ -272,8 +271,7 @@ def rule_r5(ctx):
         ctx.r.violation(rid, key_of(cs, None, "unsupported-not-refused"), "unsupported socket types are not refused", cs.loc())
 
 
-def rule_r6(ctx):
-    rid = "C20.R6"
+def rule_r6(ctx, rid="C20.R6"):
     ctx.r.rule(rid, "CLI == keyword: options derived from _params; --x / --no-x map to strings on opposite sides of `truthy`; other options pass the raw string; listen accumulates space-separated")
     p = ctx.p
     f = p.func("adjustments.Adjustments.parse_args")
